@@ -26,6 +26,9 @@ MUTANTS = [
     {"name": "scan-always-advances", "file": "src/migration/scan_migration.rs", "old": "        if need_retry {\n            // Some keys are missed in this round.\n            // Retry the last index again.\n            Ok((index, false, dst_client))\n        } else {\n            Ok((next_index, next_index == 0, dst_client))\n        }", "new": "        let _ = need_retry;\n        Ok((next_index, next_index == 0, dst_client))", "expect": "C03.D1"},
     {"name": "importing-precheck-serves", "file": "src/migration/scan_task.rs", "old": "        if self.state.get_state() == MigrationState::PreCheck {\n            return handle_redirection(\n                cmd_task,\n                self.meta.src_proxy_address.clone(),", "new": "        if self.state.get_state() == MigrationState::SwitchCommitted {\n            return handle_redirection(\n                cmd_task,\n                self.meta.src_proxy_address.clone(),", "expect": "C03.D5"},
     {"name": "umsync-error-falls-through", "file": "src/proxy/migration_backend.rs", "old": "                    error!(\"Invalid reply of UMSYNC {:?}\", err);\n                    // drop the lock here\n                    let task = state.into_inner();\n                    task.set_resp_result(Ok(Resp::Error(\n                        format!(\"{}: {:?}\", FAILED_TO_ACCESS_SOURCE, err).into_bytes(),\n                    )));\n                    continue;", "new": "                    error!(\"Invalid reply of UMSYNC {:?}\", err);", "expect": "C03.D4:umsync-failure"},
+    {"name": "precheck-hint-not-blocking", "file": "src/migration/scan_task.rs", "old": "                    cmd_task,\n                    BlockingHint::NotBlockingInMigration(term),\n                )))\n            }\n            MigrationState::PreBlocking | MigrationState::PreSwitch => {", "new": "                    cmd_task,\n                    BlockingHint::NotBlocking,\n                )))\n            }\n            MigrationState::PreBlocking | MigrationState::PreSwitch => {", "expect": "C03.D5:hint:PreCheck"},
+    {"name": "del-after-any-restore-error", "file": "src/proxy/migration_backend.rs", "old": "                Resp::Error(err)\n                    if err.get(..BUSYKEY.len()).map(|p| p == BUSYKEY) == Some(true) => {}", "new": "                Resp::Error(_) => {}", "expect": "C03.D6:del-after-restore:Error"},
+    {"name": "lock-failure-forwards-to-destination", "file": "src/proxy/migration_backend.rs", "old": "                    stats.importing_lock_failed.fetch_add(1, Ordering::Relaxed);\n", "new": "                    stats.importing_lock_failed.fetch_add(1, Ordering::Relaxed);\n                    if state.lock_slot == usize::MAX {\n                        let (_state, req_task) =\n                            MgrCmdStateForward::from_state_exists(state, registry.clone());\n                        if let Err(err) = dst_sender.send(req_task) {\n                            debug!(\"failed to forward: {:?}\", err);\n                        }\n                        continue;\n                    }\n", "expect": "C03.D6:forward-only-if-key-exists"},
 ]
 
 
@@ -68,6 +71,7 @@ def run(ctx):
     ctx.rule("C03.D2", "RESTORE without REPLACE (4 elements), BUSYKEY tolerated")
     ctx.rule("C03.D3", "command states that run a pull / push own a KeyLockGuard by type")
     ctx.rule("C03.D4", "every recognised key-removing Redis command takes the push-before-execute path; failed UMSYNC never forwards the command", exhaustive=True)
+    ctx.rule("C03.D6", "pull-path transitions on the importing proxy: forward without pulling only when the destination has the key (EXISTS true) or the source has not (DUMP nil); RESTORE only with a dumped entry; source-side DEL only after a Simple / BUSYKEY restore reply")
     ctx.rule("C03.D5", "phase routing tables of source / destination tasks and state encoding round trip", exhaustive=True)
     _transfer_paths(ctx)
     _scan_cursor(ctx)
@@ -75,6 +79,7 @@ def run(ctx):
     _lock_types(ctx)
     _commands(ctx)
     _umsync_failure(ctx)
+    _pull_transitions(ctx)
     _phases(ctx)
 
 
@@ -333,6 +338,7 @@ def _phases(ctx):
     for s in st["states"]:
         ctx.check(st["migrating"].get(s) == want_m.get(s), "C03.D5", "migrating:%s" % s, site(st["bodies"]["migrating"]), ok="source in %s: %s" % (s, st["migrating"].get(s)), bad="source proxy in %s routes `%s` (expected %s)" % (s, st["migrating"].get(s), want_m.get(s)))
         ctx.check(st["importing"].get(s) == want_i.get(s), "C03.D5", "importing:%s" % s, site(st["bodies"]["importing"]), ok="destination in %s: %s" % (s, st["importing"].get(s)), bad="destination proxy in %s routes `%s` (expected %s)" % (s, st["importing"].get(s), want_i.get(s)))
+    _hint_table(ctx, st)
     # AtomicMigrationState get_state . set_state = id on all variants
     F = ctx.F
     gs = F.one("AtomicMigrationState::get_state"); ss = F.one("AtomicMigrationState::set_state")
@@ -360,3 +366,153 @@ def _phases(ctx):
         back = Interp(F, gs, Oracle(call=call)).run().return_value()
         ctx.check(back is not None and back[0] == "agg" and back[2] == vi, "C03.D5", "state-encoding:%s" % v["name"], site(gs), ok="get_state(set_state(%s)) = %s" % (v["name"], v["name"]),
                   bad="state %s is stored as %s and read back as %s" % (v["name"], code, adt.variants[back[2]]["name"] if back and back[0] == "agg" else back))
+
+
+def _hint_table(ctx, st):
+    """commands the source task still routes to the local node carry a blocking hint: Blocking while the queue blocks,
+    otherwise NotBlockingInMigration(term of the current blocking state).  A plain NotBlocking would skip the stale-term
+    re-check in TaskBlockingQueue::send, and a command that passed the state test before pre_block() could then run on
+    the source node after the slots were switched."""
+    F = ctx.F
+    b = st["bodies"]["migrating"]
+    adt = st["adt"]
+    du = DefUse(b)
+    gs = [(bb, t) for bb, t in b.calls() if (callee_of(t) or "").endswith("get_state") and "State" in (callee_of(t) or "")]
+    gb = [(bb, t) for bb, t in b.calls() if (callee_decl(t) or callee_of(t) or "").endswith("get_blocking_state")]
+    hints = agg_sites(b, "BlockingHint")
+    if not (ctx.floor("C03.D5", "get_blocking_state in the source task's send", len(gb), 1) and ctx.floor("C03.D5", "BlockingHint constructions in the source task's send", len(hints), 2)):
+        return
+    hadt = F.adt("proxy::blocking::BlockingHint")
+    for vi, v in enumerate(adt.variants):
+        if st["migrating"].get(v["name"]) != "local":
+            continue
+        for blocking in (0, 1):
+            def call(interp, bbx, term, argvals, vi=vi, blocking=blocking):
+                for _, gt in gs:
+                    if gt is term:
+                        return Agg(adt.path, vi, ())
+                for _, gt in gb:
+                    if gt is term:
+                        return Agg("proxy::blocking::BlockingState", 0, (Bool(blocking), TOP))
+                return None
+            res = Interp(F, b, Oracle(call=call)).run()
+            got = sorted({s_["rv"]["variant"] for bb, i, s_ in hints if bb in res.exec_blocks})
+            want = ["Blocking"] if (blocking and v["name"] != "PreCheck") else ["NotBlockingInMigration"]
+            if v["name"] == "PreCheck" and blocking:
+                ok = bool(got) and "NotBlocking" not in got
+            else:
+                ok = got == want
+            ctx.check(ok, "C03.D5", "hint:%s:blocking=%d" % (v["name"], blocking), site(b), ok="hint %s" % got,
+                      bad="the source task in %s (queue blocking=%d) routes a command to the local node with hint %s (expected %s): the stale-term check / blocking queue is bypassed" % (v["name"], blocking, got, want))
+    for bb, i, s_ in hints:
+        if s_["rv"]["variant"] == "NotBlockingInMigration":
+            sl = du.slice_operand(s_["rv"]["ops"][0])
+            ctx.check(sl.has_call("get_blocking_state"), "C03.D5", "hint-term-origin#%d" % bb, site(b, bb, i), ok="term comes from get_blocking_state()", bad="the term of NotBlockingInMigration does not come from the current blocking state")
+
+
+def _discr_guards(b, du, bb, dom=None):
+    """[(base local type, projection as text, taken value)] of the enum-discriminant switches that control bb"""
+    from ..lib import branch_conditions
+    out = []
+    for d, discr, val in branch_conditions(b, bb, dom):
+        pl = discr.get("mv") or discr.get("cp")
+        if pl is None:
+            continue
+        for df in du.defs.get(pl["l"], []):
+            if df[0] == "assign" and df[3]["rv"]["k"] == "discr":
+                p_ = df[3]["rv"]["p"]
+                proj = "/".join((e.get("dc") or e.get("name") or "") if isinstance(e, dict) else str(e) for e in p_["p"])
+                out.append((b.locals[p_["l"]]["ty"], proj, val, d))
+    return out
+
+
+def _pull_transitions(ctx):
+    F = ctx.F
+    from ..lib import guarded_true_by_call
+    R = "C03.D6"
+    # T1: EXISTS handler
+    hb = [b for b in _async_body(F, "::handle_exists_task") if b.path.startswith("proxy::migration_backend")]
+    if not hb:
+        ctx.lost(R, "handle_exists_task", "async body not found")
+    else:
+        b = hb[0]
+        ctx.analysed(b)
+        du = DefUse(b)
+        dom = cfg.dominators(b)
+        fw = calls_to(b, "MgrCmdStateForward::from_state_exists")
+        if ctx.floor(R, "forward-after-EXISTS constructions", len(fw), 1):
+            for bb, t in fw:
+                ctx.check(guarded_true_by_call(b, du, bb, "parse_exists_result", dom), R, "forward-only-if-key-exists#L%d" % 0 if False else "forward-only-if-key-exists:%s" % ("bb%d" % bb), site(b, bb),
+                          ok="the command is forwarded to the destination node only on the key-exists branch", bad="a command is forwarded to the destination node without the key being there (not on the true branch of parse_exists_result): it runs ahead of the RESTORE of a concurrent pull, reads nil / creates the key and the migrated value is lost (BUSYKEY, then DEL at the source)")
+        dp = calls_to(b, "MgrCmdStateDumpPttl::from_state_exists")
+        ctx.floor(R, "DUMP+PTTL constructions after EXISTS", len(dp), 1)
+    # T2 / T3: DUMP reply handler
+    hb = [b for b in _async_body(F, "::handle_dump_pttl_task") if b.path.startswith("proxy::migration_backend")]
+    if not hb:
+        ctx.lost(R, "handle_dump_pttl_task", "async body not found")
+    else:
+        b = hb[0]
+        ctx.analysed(b)
+        du = DefUse(b)
+        dom = cfg.dominators(b)
+        for name, want, label in (("MgrCmdStateForward::from_state_dump_pttl", 0, "forward-only-if-source-has-no-key"), ("MgrCmdStateRestoreForward::from_state_dump", 1, "restore-only-with-dumped-entry")):
+            cs = calls_to(b, name)
+            if not ctx.floor(R, name.split("::", 1)[1] + " constructions", len(cs), 1):
+                continue
+            for bb, t in cs:
+                gs = _discr_guards(b, du, bb, dom)
+                outer = [g for g in gs if g[0].startswith("std::result::Result<std::option::Option<") and g[1] == "" and g[2] == 0]
+                inner = [g for g in gs if g[0].startswith("std::result::Result<std::option::Option<") and g[1].startswith("Ok/") and g[2] == want]
+                ctx.check(bool(outer) and bool(inner), R, "%s:bb%d" % (label, bb), site(b, bb), ok="built only on Ok(%s) of the DUMP/PTTL reply" % ("None" if want == 0 else "Some(entry)"),
+                          bad="%s is not restricted to the Ok(%s) branch of the DUMP/PTTL reply" % (name, "None" if want == 0 else "Some"))
+    # T4: RESTORE reply handler
+    hb = [b for b in _async_body(F, "::handle_restore") if b.path.startswith("proxy::migration_backend")]
+    if not hb:
+        ctx.lost(R, "handle_restore", "async body not found")
+        return
+    b = hb[0]
+    du = DefUse(b)
+    dom = cfg.dominators(b)
+    dl = calls_to(b, "MgrCmdStateDel::from_task_context")
+    if not ctx.floor(R, "DEL constructions in handle_restore", len(dl), 1):
+        return
+    dbb = dl[0][0]
+    heads = {h for _, h in cfg.natural_loops(b)}
+    radt = F.adt("protocol::resp::Resp")
+    found = False
+    for sb, t in b.iter_terms():
+        if t["k"] != "switch" or sb not in dom.get(dbb, ()):
+            continue
+        pl = t["discr"].get("mv") or t["discr"].get("cp")
+        if pl is None:
+            continue
+        isresp = False
+        for df in du.defs.get(pl["l"], []):
+            if df[0] == "assign" and df[3]["rv"]["k"] == "discr" and b.locals[df[3]["rv"]["p"]["l"]]["ty"].startswith("protocol::resp::Resp<") and not df[3]["rv"]["p"]["p"]:
+                isresp = True
+        if not isresp:
+            continue
+        found = True
+        arms = [(int(v), tg) for v, tg in t["targets"]] + [(None, t["otherwise"])]
+        for v, tg in arms:
+            vname = radt.variants[v]["name"] if v is not None and radt is not None else "otherwise"
+            reach = cfg.path_between(b, tg, dbb, avoid=heads - {tg}) is not None if tg != dbb else True
+            if vname == "Simple":
+                ctx.check(reach, R, "del-after-restore:Simple", site(b, sb), ok="a Simple (OK) restore reply leads to the source-side DEL", bad="a successful RESTORE never deletes the source copy")
+            elif vname == "Error":
+                # reachable only through a comparison with BUSYKEY
+                guarded = False
+                for wb, wt in b.iter_terms():
+                    if wt["k"] != "switch" or wb == sb or tg not in dom.get(wb, ()) and wb != tg:
+                        continue
+                    if cfg.path_between(b, wb, dbb, avoid=heads) is None:
+                        continue
+                    sl = du.slice_operand(wt["discr"])
+                    if any(c == b"BUSYKEY" for c in sl.const_strs()) or sl.has_call("handle_restore::{closure#0}::BUSYKEY") or any("BUSYKEY" in c for c in list(sl.calls) + list(sl.decls)) or any("BUSYKEY" in str(c) for c in sl.consts):
+                        if any(cfg.path_between(b, x, dbb, avoid=heads) is None for x in b.succs()[wb]):
+                            guarded = True
+                ctx.check((not reach) or guarded, R, "del-after-restore:Error", site(b, sb), ok="an error reply leads to DEL only when it is BUSYKEY", bad="any error reply to RESTORE leads to the source-side DEL: the key is deleted at the source although it was not restored")
+            else:
+                ctx.check(not reach, R, "del-after-restore:%s" % vname, site(b, sb), ok="no DEL after a %s reply" % vname, bad="a %s reply to RESTORE leads to the source-side DEL" % vname)
+    if not found:
+        ctx.lost(R, "del-after-restore", "no switch over the RESTORE reply dominates the DEL construction")
